@@ -539,6 +539,29 @@ func lowerGuard(info *types.Info, fd *ast.FuncDecl, pos token.Pos, v types.Objec
 	visit = func(list []ast.Stmt) {
 		for _, st := range list {
 			if st.End() <= pos {
+				// a clamp: `if v < C { v = K }` with C, K >= 0 leaves v >= min(C, K) >= 0
+				if is, ok := st.(*ast.IfStmt); ok && is.Else == nil && is.Init == nil && len(is.Body.List) == 1 {
+					if as, ok := is.Body.List[0].(*ast.AssignStmt); ok && as.Tok == token.ASSIGN && len(as.Lhs) == 1 && len(as.Rhs) == 1 {
+						isV := func(x ast.Expr) bool {
+							id, ok := x.(*ast.Ident)
+							return ok && info.Uses[id] == v
+						}
+						if lid, ok := as.Lhs[0].(*ast.Ident); ok && info.Uses[lid] == v {
+							if _, other, op, ok := eng.CmpOn(is.Cond, isV); ok {
+								ct, ok1 := info.Types[other]
+								kt, ok2 := info.Types[as.Rhs[0]]
+								if ok1 && ok2 && ct.Value != nil && kt.Value != nil {
+									c, okc := constInt(ct)
+									k, okk := constInt(kt)
+									if okc && okk && k >= 0 && ((op == token.LSS && c >= 0) || (op == token.LEQ && c >= -1)) {
+										bound, found = "was clamped to "+kt.Value.String()+" when "+op.String()+" "+ct.Value.String(), true
+										continue
+									}
+								}
+							}
+						}
+					}
+				}
 				if is, ok := st.(*ast.IfStmt); ok && is.Else == nil && is.Init == nil && blockLeaves(is.Body) {
 					if b, ok := eng.Unparen(is.Cond).(*ast.BinaryExpr); ok {
 						op, x, y := b.Op, b.X, b.Y
